@@ -765,7 +765,9 @@ func describeC13(plan []byte) string {
 		ops += len(t)
 	}
 	seq := "interleaving needed: schedule of " + fmt.Sprint(len(pl.Schedule)) + " recorded choices"
-	if len(pl.Schedule) == 0 && pl.After == "first" {
+	if len(pl.Tasks) == 1 {
+		seq = "no concurrency needed: one caller suffices (the ingredient is the map order or the call history)"
+	} else if len(pl.Schedule) == 0 && pl.After == "first" {
 		seq = "no interleaving needed: tasks run to completion one after the other (an earlier call is enough)"
 	}
 	return fmt.Sprintf("%d task(s), %d operation(s), map order %s, %s, %d recipe op(s)", len(pl.Tasks), ops, pl.MapOrder.Mode, seq, len(pl.Recipe.Ops))
